@@ -95,7 +95,7 @@ SPEC = {
     "finish": {
         "rule": "a case is (rule configuration incl. target type and Maximum, input bytes); every configuration is run on it at top level with rewind_mode::required and the default mode and embedded as opt<R> and sor<R,mark>, on an exact-size heap buffer and on a buffer with a poisoned tail of digits. "
                 "distinct_nontrivial counts the distinct (configuration, input) pairs whose input has at least 2 bytes, each once: in the exhaustive sweeps (all digit strings up to the type's decimal width + 1 for 8-bit, width (quick) / width + 1 (thorough) for 16-bit targets, "
-                "up to 5 (quick) / 7 (thorough) digits for the rules without a target type, up to digits(Maximum) + 1 (quick) / + 2 (thorough) for explicit maxima of 8/16-bit types; each plain, with one non-digit trailer, and with '+'/'-') every pair is generated once; "
+                "up to 5 (quick) / 7 (thorough) digits for the rules without a target type, up to digits(Maximum) + 1 (quick) / + 2 (thorough) for explicit maxima of 8/16-bit types (quick tier, uint16 maxima: maximum_rule and maximum_rule_with_action only; maximum_action and the apply_mode::nothing form then get the boundary part only); each plain, with one non-digit trailer, and with '+'/'-') every pair is generated once; "
                 "in the boundary part (0..12, 10^k+-3, +-3 around limit, limit/10, limit*10 and the cutoff rows, around 2^bits and its aliases, seeded random numerals of every length up to width + 2 and numerals sharing a prefix with the limit; each with sign, leading-zero and 13 non-digit / 3 digit trailer variants) "
                 "only the variants ending in end-of-input or a non-digit are counted (a digit trailer can coincide with another magnitude) and only for 32/64-bit targets (for 8/16-bit targets and the type-less rules the sweeps already contain most of them). "
                 "Inputs that denote the minimum of a 32/64-bit signed type are routed to one case per (rule, type), labelled <rule><type>:min, so that a sanitizer report there is keyed separately.",
@@ -108,6 +108,6 @@ SPEC = {
         ],
         "floors": floors(),
         "extra_cov": {"exhaustive_parts": ["all digit strings of 1..4 digits for int8/uint8 targets", "all digit strings of 1..5 (thorough: 6) digits for int16/uint16 targets",
-                                           "all digit strings of 1..5 (thorough: 7) digits for the rules without target type", "all digit strings up to digits(Maximum)+1 (thorough: +2) for every explicit Maximum of uint8/uint16"]},
+                                           "all digit strings of 1..5 (thorough: 7) digits for the rules without target type", "all digit strings up to digits(Maximum)+1 (thorough: +2, capped at the type's sweep length) for every explicit Maximum of uint8/uint16"]},
     },
 }
